@@ -6,5 +6,6 @@ CONSTANTS
   Focus = "prov"
 INVARIANT GenInv
 INVARIANT TxnLockAgree
+INVARIANT NoStaleSideFile
 INVARIANT DoneMeansCommitted
 CHECK_DEADLOCK FALSE
